@@ -43,6 +43,14 @@ def run_history(ctx, r, n_cmds, weights, oracle, legacy=False, prelude=None, gen
                 return trace
             v.update(rec.get("model_post"))
             pre = rec["post"]
+            # T2-view: what `list --json` / `show --json` say about this log vs the model's View functions
+            if (i % 6 == 5 or i == n_cmds - 1) and "events" in rec["post"]:
+                ids = [r.pick(x) for x in (v.tasks, v.tasks, v.epics, v.pruned) if x] + ["ZZZZZZ"]
+                vd = cmdrun.compare_views(st, ctx.model, rec["post"]["events"], ids, epic=(r.pick(v.epics) if v.epics else ""))
+                ctx.count(1, key=("view", len(ids)))
+                if vd:
+                    ctx.tie_broken("T2-view", {"diff": vd, "trace": trace})
+                    return trace
         ctx.sample({"history": trace[:5]}, cap=3)
         return trace
     finally:
